@@ -290,6 +290,35 @@ def getFunction (gate : RustTy → RotoTy → Res) (fns : Functions) (name : Ide
       | .panic => .panic
     | e => e
 
+/-! ## Histories of requests on one package
+
+  `Module::get_function` takes `&mut self`. What of `self` it touches is read
+  off the source by the translator (`Gen.Gate.getFunctionSelfFields`,
+  `getFunctionMutFields`, `getFunctionSelfCalls`): the function table and the
+  JIT handle are only read; `type_info` is handed to the checkers as `&mut`,
+  and they only call `resolve` (union-find path compression, which does not
+  change what a type resolves to) and `resolve_type_name`. So the state a
+  request leaves behind is the state it found, and the model of a package is
+  the pair below, threaded unchanged. -/
+
+/-- `get_function::<F>(name)` -/
+structure Request where
+  name : Ident
+  f : RustFn
+
+structure Package where
+  fns : Functions
+  ti : TypeInfo
+
+/-- one request: the package afterwards, and the answer -/
+def Package.get (gate : TypeInfo → RustTy → RotoTy → Res) (pk : Package) (q : Request) : Package × GetRes :=
+  (pk, getFunction (gate pk.ti) pk.fns q.name q.f)
+
+/-- the answers to a history of requests on one package, in order -/
+def Package.run (gate : TypeInfo → RustTy → RotoTy → Res) : Package → List Request → List GetRes
+  | _, [] => []
+  | pk, q :: qs => (pk.get gate q).2 :: Package.run gate (pk.get gate q).1 qs
+
 /-! ## `force_filtermap_types` -/
 
 /-- What the checker does to the declared signature of a filtermap after type
